@@ -246,7 +246,16 @@ def s5_docs(tier):
             yield ("S5", name, f"use-scale-1e{-k}"), doc(f'<use xlink:href="#t" transform="scale({inv})"/>', defs=sh.replace("<", '<', 1).replace(" fill=", ' id="t" fill=', 1))
 
 
+def s6_docs(tier):
+    """larger structures: many siblings / gradients / uses, long paths, chained relative subpaths with shorthand, deep nesting"""
+    from mc.gen import big
+
+    for label, d in big.all_docs(tier):
+        yield ("S6", label, ""), d
+
+
 def all_docs(tier):
+    yield from s6_docs(tier)
     yield from s5_docs(tier)
     yield from s1_docs(tier)
     yield from s2_docs(tier)
@@ -277,7 +286,7 @@ def run(run):
         "over 11 level kinds {g, g+transform x4, use x/y | transform | both, nested svg plain | viewBox meet | viewBox slice} x 3 leaves x own transform; S3: all arrangements "
         "of 2 (3) items from 8 (shapes, use instances of shared targets, groups) with display:none on each item, hidden use targets; S4: nested svg viewports: 3 boxes x 5 viewBoxes "
         "(incl. numerically equal to the element's own x y width height) x 20 preserveAspectRatio x overflow {absent, hidden, visible}, two-level nesting and SVG 2 transform (thorough); "
-        "S5: 4 shapes drawn in units of 10^k (k in -4..6; thorough -6..7) and scaled back by group / own / two composed / use transforms or a nested-svg viewBox, and tiny scales undone by a descendant. "
+        "S6: 18 larger documents (300 siblings, 12+12 gradients, 5 uses of one target, 60-segment curve, 150-point polygon, 3-4 subpaths chained by relative movetos with H/V / s / t shorthand, 4 nested translucent groups, 6 nested transforms, clipPath with 10 children, 26-child wrapper); S5: 4 shapes drawn in units of 10^k (k in -4..6; thorough -6..7) and scaled back by group / own / two composed / use transforms or a nested-svg viewBox, and tiny scales undone by a descendant. "
         "Oracle: canonical paint stacks and composites of source vs output equal at every lattice/probe point outside the 0.4% band; output free of transform/use/svg (R4). "
         "Non-trivial = >= 30 compared points inside some layer and >= 30 outside all (distinct documents)."
     )
